@@ -54,7 +54,7 @@ def sort_of(sp, cfg):
         return ("bv", sp[1] + sort_of(sp[2], cfg)[1])
     if op == "ite":
         return sort_of(sp[2], cfg)
-    if op in ("fpadd", "fpmul", "fpsub", "fpneg", "fpabs"):
+    if op in ("fpadd", "fpmul", "fpsub", "fpneg", "fpabs", "fpdiv", "fpsqrt"):
         return sort_of(sp[-1], cfg)
     if op == "fp2bv":
         return ("bv", 32 if sort_of(sp[1], cfg)[1] == "f" else 64)
@@ -118,6 +118,10 @@ def build_claripy(sp, cl):
         return cl.fpSub(rm, B(sp[1]), B(sp[2]))
     if op == "fpmul":
         return cl.fpMul(rm, B(sp[1]), B(sp[2]))
+    if op == "fpdiv":
+        return cl.fpDiv(rm, B(sp[1]), B(sp[2]))
+    if op == "fpsqrt":
+        return cl.fpSqrt(rm, B(sp[1]))
     if op == "fpneg":
         return cl.fpNeg(B(sp[1]))
     if op == "fpabs":
@@ -217,6 +221,10 @@ def build_ref(sp, ctx):
         return z3.fpSub(rm, B(sp[1]), B(sp[2]), ctx)
     if op == "fpmul":
         return z3.fpMul(rm, B(sp[1]), B(sp[2]), ctx)
+    if op == "fpdiv":
+        return z3.fpDiv(rm, B(sp[1]), B(sp[2]), ctx)
+    if op == "fpsqrt":
+        return z3.fpSqrt(rm, B(sp[1]), ctx)
     if op == "fpneg":
         return z3.fpNeg(B(sp[1]), ctx)
     if op == "fpabs":
@@ -368,9 +376,19 @@ class Gen:
                 return ["fpneg", v]
             if k < 82:
                 return ["fpabs", v]
-            if k < 92:
+            if k < 88:
                 return ["fpadd", v, ["fpc", self.fpbits(kk), kk]]
-            return ["fpmul", v, ["fpc", self.fpbits(kk), kk]]
+            if k < 92:
+                return ["fpmul", v, ["fpc", self.fpbits(kk), kk]]
+            k2 = r.below(100)
+            c = ["fpc", self.fpbits(kk), kk]
+            if k2 < 30:
+                return ["fpdiv", c, v]   # the variable (often pinned to a signed zero) divides
+            if k2 < 55:
+                return ["fpdiv", v, c]
+            if k2 < 75:
+                return ["fpsub", v, c] if r.chance(50) else ["fpsub", c, v]
+            return ["fpsqrt", v]
         if k < 50:
             return v
         if k < 75:
